@@ -110,6 +110,13 @@ class LoaderEngine(VectorEngine):
 
     # -- Flow A with a second, "explain" TLC pass for the mismatches -----------
     def flow_a(self, ctx, vecs, tag):
+        # the thorough enumerations (3 files x 3-4 statements x every spelling / fault position) have several hundred
+        # thousand graphs; each is executed and its trace validated (about 2 minutes per 2500), so a seeded sample of
+        # CAP graphs per configuration is taken - said in the evidence notes
+        CAP = 30000
+        if len(vecs) > CAP and "." not in tag.replace(".cfg", ""):
+            ctx.notes.append(f"{tag}: {len(vecs)} graphs enumerated by TLC, a seeded sample of {CAP} executed")
+            vecs = ctx.rng.sample(vecs, CAP)
         # in chunks, so that a badly broken tree (hundreds of stack overflows) fails fast
         if len(vecs) > 2500:
             av, ac, ar = [], [], {}
